@@ -5,16 +5,16 @@
 package zzvrt
 
 import (
-	"runtime"
-	"time"
 	"encoding/json"
 	"fmt"
 	"math"
 	"math/big"
 	"os"
+	"runtime"
 	"sort"
 	"strconv"
 	"strings"
+	"time"
 )
 
 type Value struct {
